@@ -65,6 +65,10 @@ CLAIMED = {
   text="Deductive proof of the import side over ghost models of the file (CSV), of the rows computed (IMP) and of the rows handed to the database (INS): parseRecordToBlockHeadersSource refuses a row unless it has five columns with numerals in range and parsable hashes and otherwise yields exactly the parsed fields; calculateFields / prepareRecord derive hash = hashOf(fields, previous row's hash), height = row index, work = spec_work(bits), cumulative work = previous + work, state LONGEST_CHAIN; insertHeaders (loop invariant) hands exactly these rows, in order, to one CreateMultiple transaction and carries previous hash and cumulative work across the 500-row batch boundary; database.importHeaders never touches a database that already holds headers and leaves an empty table behind when the import or its validation fails (defect found and fixed). The export (SQL, strftime, CSV, gzip), the batch loop of sqLiteAdapter.importHeaders, validateDbConsistency and the round trip as a whole are checked by the bounded stand-in importlab on real SQLite files.",
   note="Bounded (importlab): chains of 1, 2, 3, 7, 501 (thorough: 1003) headers with stale siblings and an orphan, extreme versions/nonces/timestamps; all single-field corruptions, missing/extra column, dropped row, wrong checkpoint on a 4-row export, each with a second start; genesis-only target. Assumed: strconv/time/csv.Reader/errors.Is contracts, (*big.Int).SetString(\"\") leaves 0, CreateMultiple is one all-or-nothing transaction, DELETE FROM headers empties the table (removeRefusedImport), Count/Height SQL; a hash string accepted by NewHashFromStr that is not 64 hex digits (e.g. a shortened merkle root) is accepted by the import - noted, not claimed.",
   design="4 C17"),
+ "C18": dict(
+  text="Deductive proof of the admission bookkeeping of the p2p server, one handler call at a time over the real peerState maps (map contents modelled as dom/val/len families): handleAddPeerMsg admits a peer exactly when the server is not shutting down, the address parses, the host is not under a running ban (clock value read by the handler, ghost CLK), the host has fewer than MaxPeersPerIP counted connections and fewer than MaxPeers peers are known; an admitted peer enters exactly one map, Count grows by at most one and stays <= 125, the host counter grows by exactly one (persistent peers are not counted) and stays <= 5, a refused peer is disconnected and nothing is counted, an expired ban entry is dropped and other hosts' entries are untouched; handleBanPeerMsg bans exactly the peer's host until now + BanDuration; handleDonePeerMsg removes a known peer from its map and decrements its host and group counters exactly once, and changes no counter for an unknown peer. Limits, ban window and 'counters return to zero' follow by induction over handler calls from these per-call deltas (DESIGN 4 C18).",
+  note="Not covered (outside the verified subset: goroutines, select, channels): the connection manager's target-keeping (connmgr.connHandler / handleFailedConn / NewConnReq) - seed C18-reconnect-counts-pending is missed; peerHandler's dispatch loop. Assumed: net.SplitHostPort, time.Now/Before/Add, atomic.LoadInt32, addrmgr.GroupKey as uninterpreted functions; the three peer maps and the two counter maps are distinct objects (requires); peers reach handleAddPeerMsg only after version negotiation (versionKnown), so the group counter decrement in handleDonePeerMsg always applies.",
+  design="4 C18"),
  "C20": dict(
   text="Deductive proof that DbConfig.Validate / AppConfig.Validate accept a configuration exactly when it selects a supported engine (sqlite with a non-empty path, or postgres with host, port, user and database name) and, if a prepared database is requested, names an existing file (ghost FS.exists behind os.Stat), and that GetDefaultAppConfig returns all eight sections non-nil with a valid default database section; plus structural obligations (types and SSA, no solver) for the precedence mechanism: every field on the way to each of the 34 leaf keys of AppConfig carries a plain lower-case mapstructure name without options (omitempty/squash/'-' would drop a zero default from the registered defaults and the key would stop honouring its BHS_ variable), key names are unique per section, SetDefaults registers mapstructure.Decode(GetDefaultAppConfig()) key by key through viper.SetDefault and then calls envConfig, envConfig sets prefix bhs, replaces '.' by '_' and calls AutomaticEnv, and Load reads the selected file before viper.Unmarshal.",
   note="Assumed, not proved: viper's resolution order (explicit Set > env > config file > default) and mapstructure's decoding - library behaviour behind reflection, outside the verified subset; that the registered defaults equal the documented ones (config.example.yaml differs from defaults.go for logging.origin and logging.instance_name - documentation, not checked); os.Stat. The structural obligations are syntactic facts about the type and the SSA, enumerated from the code on every run (new keys are included).",
